@@ -643,6 +643,17 @@ func Div(a, b *Term) *Term {
 	return intern(t)
 }
 
+// IsMultipleOf reports whether a is syntactically k*b for an integer constant k.
+func IsMultipleOf(a, b *Term) bool {
+	if a == b {
+		return true
+	}
+	if v, ok := a.ConstInt(); ok && v.Sign() == 0 {
+		return true
+	}
+	return a.Op == OSum && len(a.Args) == 1 && a.Args[0] == b && a.Rat.Sign() == 0 && a.Coef[0].IsInt()
+}
+
 // Mod is SMT-LIB integer mod (result in [0,|b|)).
 func Mod(a, b *Term) *Term {
 	if av, ok := a.ConstInt(); ok {
@@ -650,6 +661,9 @@ func Mod(a, b *Term) *Term {
 			_, m := euclid(av, bv)
 			return IntC(m)
 		}
+	}
+	if _, ok := b.ConstInt(); !ok && b.Lo != nil && b.Lo.Sign() > 0 && IsMultipleOf(a, b) {
+		return I64(0)
 	}
 	t := &Term{Op: OMod, Sort: Int, Args: []*Term{a, b}, Lo: bi0}
 	if bv, ok := b.ConstInt(); ok && bv.Sign() > 0 {
